@@ -42,6 +42,8 @@ def run(patch, props):
             print(p, "rc=%d" % rc, " || ".join(lines)[:600])
     finally:
         sh("git -C /repo checkout -- .")
+        # bring the regenerated Lean files back in line with the restored tree
+        sh([sys.executable, "/verif/translate/t2.py"]); sh([sys.executable, "/verif/translate/t1.py"])
     return res
 
 def full(prop, k, props):
